@@ -59,6 +59,14 @@ def run(tier, rep, ev):
     for k, name in enumerate(shapes):
         add(sizes=SHAPES[name], mode="thread" if k % 2 else "seq", sink="factory", callback="slow", repeat=2, seed=k)
         add(sizes=SHAPES[name], mode="seq" if k % 2 else "thread", sink="factory", callback="fast", repeat=3, seed=k)
+    # extractions without a callback between / before / after those with one: nothing of theirs may reach a callback
+    for k, name in enumerate(shapes):
+        for nocb in ([1], [2], [1, 3], [2, 3]):
+            add(sizes=SHAPES[name], mode=["thread", "seq"][(k + len(nocb) + nocb[0]) % 2], sink="factory", callback="fast" if nocb[0] == 1 else "slow",
+                repeat=3 if 3 in nocb else 2, nocb=nocb, seed=k)
+    # the process-parallel option with a callback (to a directory)
+    for k, name in enumerate(shapes):
+        add(sizes=SHAPES[name], mode="process", sink="path", callback="fast" if k % 2 else "slow", seed=k, schedule=[])
     # members larger than the decode chunk: several 'u' events per member must add up
     for k, name in enumerate(shapes):
         add(sizes=SHAPES[name], mode="thread" if k % 2 else "seq", sink="factory", callback="fast", limit=[300, 1000, 777][k % 3], seed=k)
